@@ -493,3 +493,50 @@ def stop_hook_family(cfgs: list) -> list:
                             sch += [("ev", "connect"), ("idle",), ("ev", "resolve", "err"), ("idle",), ("tick",), ("tick",)]
                             out.append((cfg, sch))
     return out
+
+
+def tokens_to_schedule(cfg: dict, toks: list, variant: int) -> list:
+    """One history of abstract Client.tla events (printed by TLC, GenMode) -> environment events for the real
+    client.  The translation only has to be plausible: the recorded execution is validated against the
+    specification anyway, and events whose precondition does not hold in the real run are skipped."""
+    hello = [HELLO_OK] + ([CONNECT_OK] if cfg.get("login") else [])
+    gap_cycle = ([], [("iter", 1)], [("idle",)])
+    sch: list = []
+    for n, t in enumerate(toks):
+        k = t[0]
+        g = list(gap_cycle[(n + variant) % 3])
+        if k == "start":
+            sch += [("ev", "start")] + g
+        elif k == "connect":
+            sch += [("ev", "connect")] + g
+        elif k == "finish":
+            sch += [("ev", "finish")] + g
+        elif k == "disconnect":
+            sch += [("ev", "disconnect", bool(t[1]))] + g
+        elif k == "api":
+            sch += [("ev", "api", API_SAMPLE[(n + variant) % len(API_SAMPLE)])] + g
+        elif k == "phase":
+            res, kind = t[1], t[2]
+            if kind == "start":
+                if res == "ok":
+                    sch += [("ev", "resolve", "ok"), ("iter", 2), ("ev", "tcp", "ok")] + g
+                else:
+                    sch += ([("ev", "resolve", "err")] if (n + variant) % 2 else [("ev", "resolve", "ok"), ("iter", 2), ("ev", "tcp", "err")]) + g
+            else:
+                pre = [("ev", "handshake"), ("iter", 1)] if cfg.get("noise") else []
+                if res == "ok":
+                    sch += pre + [("ev", "chunk", hello)] + g
+                else:
+                    sch += pre + [[("ev", "chunk", [HELLO_BAD])], [("ev", "chunk", [HELLO_OK, CONNECT_BAD])], [("ev", "eof")]][(n + variant) % 3] + g
+        elif k == "progress":
+            sch += ([("ev", "handshake")] if cfg.get("noise") else [("iter", 2)]) + g
+        elif k == "close":
+            sch += [[("ev", "eof")], [("ev", "chunk", [{"k": "discreq"}])], [("ev", "reset"), ("iter", 1)], [("ev", "chunk", [{"k": "garbage"}])]][(n + variant) % 4] + g
+        elif k == "writefail":
+            sch += [("ev", "writefail")] + g
+        elif k == "reset":
+            sch += [("ev", "reset")] + g
+        elif k == "discend":
+            sch += ([("ev", "chunk", [{"k": "discresp"}])] if (n + variant) % 2 else [("tick",)]) + g
+    sch += [("idle",), ("ev", "start"), ("idle",), ("ev", "resolve", "err"), ("idle",), ("tick",), ("tick",)]
+    return sch
